@@ -1,7 +1,6 @@
 package c08
 
 import (
-	"errors"
 	"fmt"
 
 	"github.com/cossacklabs/themis/gothemis/keys"
@@ -289,8 +288,6 @@ func histories(rot1, rot2 int) []history {
 		}},
 	}
 }
-
-var errInapplicable = errors.New("operation not applicable after this history")
 
 func describe(kind string, hist string, op *opSpec) string {
 	return fmt.Sprintf("%s/%s/%s", kind, hist, op.name)
